@@ -81,6 +81,13 @@ func (o *ObjectSchema) IDUnenforced() bool {
 }
 
 func (o *ObjectSchema) ApplyNamespace(objects map[string]*ObjectSchema, namespace string) {
+	if namespace == SelfNamespace {
+		// Objects built by unserialization decode their JSON defaults lazily, and a default that is not valid
+		// JSON would only panic on the first Unserialize. Decoding them in the self-namespace traversal (whose
+		// panics UnserializeScope and UnserializeSchema turn into errors) also reaches objects that are used
+		// inline as a property, item or member type and are not registered in any scope.
+		o.GetDefaults()
+	}
 	for _, property := range o.PropertiesValue {
 		property.ApplyNamespace(objects, namespace)
 	}
